@@ -42,11 +42,44 @@ impl MetadataMap {
 '''
 
 
-def http_base(u: Unit):
-    u.prelude('base.rs', 'bytes.rs', 'http.rs', 'httpmsg.rs', 'encodings.rs', 'stdshim.rs')
+FOLD_CASE = {'http.rs': [(
+    'impl AsHeaderName for &str { open spec fn hname(&self) -> Seq<char> { self@ } }',
+    '// A-http-26: a name given as text is normalised to lower case by every HeaderMap lookup (HdrName::from_bytes), as by\n'
+    '// HeaderName::from_bytes; elsewhere this prelude states lookups for the lower-case literals tonic itself uses\n'
+    'impl AsHeaderName for &str { open spec fn hname(&self) -> Seq<char> { lower(self@) } }')]}
+
+LOWER = r'''
+// ASCII lower-casing of a header name (what http does to names given as text)
+pub open spec fn lower_char(c: char) -> char { if 'A' <= c && c <= 'Z' { (((c as u8) + 32) as u8) as char } else { c } }
+pub open spec fn lower(s: Seq<char>) -> Seq<char> { s.map_values(|c: char| lower_char(c)) }
+pub mod case_facts {
+    use crate::*;
+    pub broadcast proof fn lemma_lower_idem(s: Seq<char>) ensures #[trigger] lower(lower(s)) == lower(s) { assert(lower(lower(s)) =~= lower(s)); }
+    // A-http-27: a HeaderName is lower-case (http normalises on construction)
+    pub broadcast axiom fn axiom_header_name_lower(n: HeaderName) ensures #[trigger] lower(n@) == n@;
+}
+
+// the reserved names are lower-case already
+pub proof fn lemma_reserved_lower()
+    ensures forall|k: Seq<char>| is_reserved(k) ==> #[trigger] lower(k) == k
+{
+    reveal_strlit("te"); reveal_strlit("user-agent"); reveal_strlit("content-type"); reveal_strlit("grpc-message");
+    reveal_strlit("grpc-message-type"); reveal_strlit("grpc-status");
+    assert(lower("te"@) =~= "te"@); assert(lower("user-agent"@) =~= "user-agent"@); assert(lower("content-type"@) =~= "content-type"@);
+    assert(lower("grpc-message"@) =~= "grpc-message"@); assert(lower("grpc-message-type"@) =~= "grpc-message-type"@); assert(lower("grpc-status"@) =~= "grpc-status"@);
+}
+'''
 
 
-def metadata_core(u: Unit, props_sanitize=('C08', 'C03', 'C04', 'C12')):
+def http_base(u: Unit, fold_case=False):
+    """fold_case: the unit hands user-supplied text to HeaderMap lookups, so the case-insensitivity of http names is modelled"""
+    u.prelude('base.rs', 'bytes.rs', 'http.rs', 'httpmsg.rs', 'encodings.rs', 'stdshim.rs', subst=FOLD_CASE if fold_case else None)
+    if fold_case:
+        u.raw(LOWER)
+        u.every_body_start = '        broadcast use {case_facts::axiom_header_name_lower, case_facts::lemma_lower_idem};'
+
+
+def metadata_core(u: Unit, props_sanitize=('C08', 'C03', 'C04', 'C12'), fold_case=False):
     """the real MetadataMap struct, its reserved-name table and the straight-line constructors"""
     u.raw(RESERVED_SPEC)
     u.item(MM, 'struct', 'MetadataMap')
@@ -70,7 +103,7 @@ def metadata_core(u: Unit, props_sanitize=('C08', 'C03', 'C04', 'C12')):
     u.fn(MM, 'len', within='impl MetadataMap', props=list(props_sanitize), ensures=[('bounded', 'r <= 32768')])
     seq = lambda i: 'it.seq()[%d]@ == k' % i
     u.fn(MM, 'into_sanitized_headers', within='impl MetadataMap', props=list(props_sanitize),
-         body_start='        let ghost h0 = self.headers@;',
+         body_start='        let ghost h0 = self.headers@;' + (' proof { lemma_reserved_lower(); }' if fold_case else ''),
          loops={0: dict(iter='it', invariant=[
              'it.seq().len() == 6',
              'forall|j: int| 0 <= j < 6 ==> is_reserved(#[trigger] it.seq()[j]@)',
